@@ -91,6 +91,16 @@ func main() {
 			infra("unknown check %q", os.Args[2])
 		}
 		os.Exit(selftest(spec))
+	case "build":
+		// debugging aid: build the driver(s) and keep the work directory
+		spec, ok := specs[os.Args[2]]
+		if !ok {
+			infra("unknown check %q", os.Args[2])
+		}
+		b := prepare(spec, spec.Flavours)
+		for fl, bin := range b.bins {
+			fmt.Println(fl, bin)
+		}
 	case "list":
 		ids := make([]string, 0, len(specs))
 		for id := range specs {
